@@ -32,6 +32,193 @@ def run_resumable(exe, engine, in_path, out_path, prog_path, njobs):
     return lines, crashes
 
 
+SCHED = {"one": [1], "s3i": [3, 0, 2, 3]}
+
+
+def real_name(label):
+    return {"": "", "uni": "h\u00e9\u00e9"}.get(label, label)
+
+
+def run_c_client(v, behs, ev):
+    """The same behaviours executed by a real C program (gcc, mla.h, libmla.a): the header, the ABI and the
+    static library are in the loop; archives are read back by the Rust reader, extraction goes through C."""
+    import hashlib
+    import random
+    exe = build_cdriver()
+    if exe is None:
+        from lib.common import _mlar
+        v.violation(dict(check="c-client", kind="c-client-does-not-compile", call="-", fault="-"),
+                    dict(engine="cdriver", gcc=_mlar.get("cdriver_error")))
+        return
+    wd = workdir("c20-cdriver")
+    pub, priv = os.path.join(wd, "key.pub.pem"), os.path.join(wd, "key.priv.pem")
+    mbt("prod", "cdriver", "genkey", pub, priv)
+    rnd = random.Random(seed() + 20)
+    content = bytes(rnd.getrandbits(8) for _ in range(1 << 16))
+    cpath = os.path.join(wd, "content.bin")
+    open(cpath, "wb").write(content)
+    total = dict(runs=0, archives=0, extracted=0)
+
+    def one(bi):
+        b = behs[bi]
+        d = os.path.join(wd, f"b{bi}")
+        os.makedirs(d, exist_ok=True)
+        arch = os.path.join(d, "a.mla")
+        slots, fed, base = {}, {}, {}
+        lines = [f"pub {pub}", f"priv {priv}", f"out {arch}"]
+        sc = SCHED.get(b["sched"], [])
+        lines.append("sched " + " ".join(map(str, [len(sc)] + sc)))
+        fk, fkind = b["fault"]["k"], b["fault"]["kind"]
+        plan = []     # (index, null_round, call)
+        for i, c in enumerate(b["calls"]):
+            op = c[0]
+            name = c[1] if len(c) > 1 and isinstance(c[1], str) else ""
+            if name not in slots:
+                slots[name] = len(slots)
+                base[name] = 4099 * slots[name]
+            rounds = [1, 0] if (fkind == "null" and fk == i + 1) else [0]
+            for nr in rounds:
+                arm = 1 if (fkind == "cbfail" and fk == i + 1) else 0
+                args = ""
+                if op == "level":
+                    args = " 3"
+                elif op in ("file", "file_after_end"):
+                    args = f" {slots[name]} {real_name(name).encode().hex()}"
+                elif op in ("append", "append_closed"):
+                    ln = c[2] if len(c) > 2 else 3
+                    args = f" {slots[name]} {cpath} {base[name] + fed.get(name, 0)} {ln}"
+                elif op in ("close", "close_again"):
+                    args = f" {slots[name]}"
+                lines.append(f"CALL {i} {nr} {arm} {op}{args}")
+                plan.append((i, nr, c))
+            if op == "append":
+                fed[name] = fed.get(name, 0) + (c[2] if len(c) > 2 else 3)   # corrected below if the call failed
+        lines.append("dump")
+        xd = os.path.join(d, "x")
+        os.makedirs(xd, exist_ok=True)
+        lines.append(f"extract {arch} {xd}")
+        sp, rp = os.path.join(d, "script.txt"), os.path.join(d, "result.txt")
+        open(sp, "w").write("\n".join(lines) + "\n")
+        try:
+            p = subprocess.run([exe, sp, rp], stdout=subprocess.PIPE, stderr=subprocess.PIPE, text=True, timeout=120)
+            rc, err = p.returncode, p.stderr[-300:]
+        except subprocess.TimeoutExpired:
+            rc, err = -999, "timeout"
+        res = open(rp).read().split("\n") if os.path.exists(rp) else []
+        return bi, rc, err, res, plan, d, arch, xd
+
+    from concurrent.futures import ThreadPoolExecutor
+    with ThreadPoolExecutor(max_workers=12) as ex:
+        outs = list(ex.map(one, range(len(behs))))
+    to_read = []
+    checks = []
+    for bi, rc, err, res, plan, d, arch, xd in outs:
+        b = behs[bi]
+        total["runs"] += 1
+        rlines = [l.split() for l in res if l.startswith("R ")]
+        xl = {l.split()[1]: l.split()[2:] for l in res if l.startswith("X ")}
+        dl = [l.split() for l in res if l.startswith("D ")]
+
+        def viol(kind, call="?", **extra):
+            v.violation(dict(check="c-client", kind=kind, call=call, fault=b["fault"]["kind"]),
+                        dict(engine="cdriver", behaviour=b, result=res[:60], **extra))
+        if rc != 0 or "END" not in res:
+            # the C program died (segfault, abort) or hung: which call is the one after the last reported
+            nxt = plan[len(rlines)][2][0] if len(rlines) < len(plan) else "extract"
+            viol("process-died", call=nxt, rc=rc, stderr=err)
+            continue
+        fired_before = False
+        bad = False
+        fed = {}
+        files = set()
+        for (i, nr, c), r in zip(plan, rlines):
+            ok = int(r[3]) == 0
+            fired_now = r[4] == "1"
+            want = "err" if nr else b["expect"][i]
+            kind = None
+            if fired_now and ok:
+                kind = "callback-failure-swallowed"
+            elif fired_before or fired_now:
+                kind = None
+            elif want == "err" and ok:
+                kind = "bad-handle-accepted"
+            elif want in ("ok", "err_when_fired") and not ok:
+                kind = "valid-call-refused"
+            if kind:
+                viol(kind, call=c[0], index=i, null=nr, status=r[3])
+                bad = True
+                break
+            if ok and not nr:
+                if c[0] == "file":
+                    files.add(c[1])
+                if c[0] == "append":
+                    fed[c[1]] = fed.get(c[1], 0) + (c[2] if len(c) > 2 else 3)
+            fired_before |= fired_now
+        if bad:
+            continue
+        fired = dl and dl[0][2] == "1"
+        if fired:
+            continue           # after a callback failure only "no crash" is specified
+        to_read.append(arch)
+        checks.append((bi, arch, xd, files, fed, xl))
+    # what the Rust reader sees in the archives the C client wrote
+    seen = {}
+    for i in range(0, len(to_read), 200):
+        p = mbt("prod", "cdriver", "read", *to_read[i:i + 200])
+        seen.update(json.loads(p.stdout.strip().splitlines()[-1]))
+    for bi, arch, xd, files, fed, xl in checks:
+        b = behs[bi]
+        slots = {}
+        for c in b["calls"]:
+            name = c[1] if len(c) > 1 and isinstance(c[1], str) else ""
+            slots.setdefault(name, len(slots))
+        want = {}
+        for n in files:
+            off = 4099 * slots[n]
+            want[real_name(n).encode().hex()] = content[off:off + fed.get(n, 0)]
+
+        def viol(kind, **extra):
+            v.violation(dict(check="c-client", kind=kind, call="-", fault=b["fault"]["kind"]), dict(engine="cdriver", behaviour=b, **extra))
+        s = seen.get(arch, {})
+        if "files" not in s:
+            viol("c-archive-unreadable", detail=s)
+            continue
+        total["archives"] += 1
+        got = s["files"]
+        if set(got) != set(want):
+            viol("c-archive-listing-differs", want=sorted(want), got=sorted(got))
+            continue
+        wrong = [n for n in want if got[n]["len"] != len(want[n]) or got[n]["size"] != len(want[n])
+                 or got[n]["sha256"] != hashlib.sha256(want[n]).hexdigest()]
+        if wrong:
+            viol("c-archive-content-differs", names=wrong)
+            continue
+        # extraction through the C interface
+        if xl.get("rcfg") != ["0", "0"] or xl.get("extract") != ["0"]:
+            viol("c-extract-failed", status=xl)
+            continue
+        bad = []
+        for n, data in want.items():
+            fp = os.path.join(xd, "f_" + n)
+            g = open(fp, "rb").read() if os.path.exists(fp) else None
+            if g != data:
+                bad.append(n)
+        extra = [f for f in os.listdir(xd) if f[2:] not in want]
+        if bad or extra:
+            viol("c-extract-content-differs", names=bad, unexpected=extra)
+            continue
+        total["extracted"] += 1
+        if xl.get("again") == ["0"] or xl.get("null") == ["0"]:
+            viol("bad-handle-accepted", call="extract_again" if xl.get("again") == ["0"] else "extract_null")
+        if xl.get("info", ["1"])[0] != "0" or xl["info"][1:] != ["1", "3"]:
+            viol("c-info-differs", info=xl.get("info"))
+    import shutil
+    shutil.rmtree(wd, ignore_errors=True)
+    ev["c_client"] = total
+    log(f"[C20] C client (gcc + mla.h + libmla.a): {total['runs']} behaviours executed, {total['archives']} archives read back by the "
+        f"Rust reader, {total['extracted']} extracted through the C interface and compared")
+
+
 def main(tier):
     v = Verdict("C20", tier)
     ev = dict(tlc=[])
@@ -62,9 +249,10 @@ def main(tier):
         calls = [x[0] for x in b["calls"]]
         v.violation(dict(check="capi", kind="process-died", call="renew" if "renew" in calls else "?", fault=b["fault"]["kind"]),
                     dict(engine="capi", rc=c["rc"], stderr=c["stderr"], behaviour=b))
+    run_c_client(v, behs, ev)
     log(f"[C20] CApi: {len(behs)} behaviours (templates x fault placements x schedules), {runs} completed, {len(crashes)} process deaths")
     cov = dict(states=r.distinct, transitions=r.generated, traces_validated_against_impl=runs, samples=samples[:2] or ["none"],
-               behaviours_from_model=len(behs), process_deaths=len(crashes), tlc_runs=ev["tlc"], exhaustive=True,
+               behaviours_from_model=len(behs), process_deaths=len(crashes), c_client=ev.get("c_client"), tlc_runs=ev["tlc"], exhaustive=True,
                rule="4 call templates (single file, interleaved files, empty/unicode names, empty archive; each ending with uses "
                     "of cleared handles) x one fault at every call (NULL handle, write callback failing once) x callback "
                     "acceptance schedules (all, one byte, <=3 bytes with EINTR); archive read back by the Rust reader and "
